@@ -46,7 +46,7 @@ def source_files(repo):
         for f in sorted(files):
             if f.endswith(".rs"):
                 out.append(os.path.join(root, f))
-    for f in ("Cargo.toml", "Cargo.lock"):
+    for f in ("Cargo.toml", "Cargo.lock", "README.md"):
         p = os.path.join(repo, f)
         if os.path.exists(p):
             out.append(p)
